@@ -726,3 +726,53 @@ def checked_fork(op):
 for _ty in ("usize", "u64", "u32", "u16", "u8", "u128"):
     reg("core::num::<impl %s>::checked_sub" % _ty, fork=checked_fork("sub"))
     reg("core::num::<impl %s>::checked_add" % _ty, fork=checked_fork("add"))
+
+
+# fixed-size chunk views of a slice (std docs)
+def _chunk_n(fargs):
+    try:
+        return int(str(fargs[-1]).split("_")[0])
+    except (ValueError, IndexError, TypeError):
+        return None
+
+
+def as_chunks_post(num, ev):
+    """as_chunks::<N>() -> (chunks, remainder): N * chunks.len() + remainder.len() = len, remainder.len() < N"""
+    n = _chunk_n(ev[7] or ())
+    if not n:
+        return []
+    l = slen(num, ev[8][0])
+    a, b = slen(num, ("field", ev[3], "0")), slen(num, ("field", ev[3], "1"))
+    tot = a.scale(n) + b
+    return [le(tot, l), le(l, tot), le(b, const(n - 1))]
+
+
+reg(["core::slice::<impl [T]>::as_chunks", "core::slice::<impl [T]>::as_chunks_mut"], post=as_chunks_post)
+
+
+def split_chunk_fork(w, st, t, args):
+    """split_first_chunk::<N>() / split_last_chunk::<N>(): Some((chunk, rest)) exactly when len >= N, with rest.len() = len - N"""
+    n = _chunk_n(t["func"].get("fn_args") or ())
+    if not n:
+        return None
+    l = slen(w.num, args[0])
+    res = ("ret", st["ncall"], "split_chunk")
+    first = t["func"]["fn"].endswith("split_first_chunk") or t["func"]["fn"].endswith("split_first_chunk_mut")
+    chunk, rest = ("chunkof", res), ("restof", res)
+    pair = ("tuple", (chunk, rest) if first else (rest, chunk))
+    some = ("agg", "adt", "std::option::Option", "Some", (pair,), ("0",))
+    none = ("agg", "adt", "std::option::Option", "None", (), ())
+    s1, s0 = w.fork(st), w.fork(st)
+    rl, cl = slen(w.num, rest), slen(w.num, chunk)
+    s1["log"].append(("lin", [le(const(n), l), le(rl, l - const(n)), le(l - const(n), rl), le(cl, const(n)), le(const(n), cl)]))
+    s0["log"].append(("lin", [le(l, const(n - 1))]))
+    out = []
+    if w.state_feasible(s1):
+        out.append({"state": s1, "res": some})
+    if w.state_feasible(s0):
+        out.append({"state": s0, "res": none})
+    return out or None
+
+
+reg(["core::slice::<impl [T]>::split_first_chunk", "core::slice::<impl [T]>::split_last_chunk",
+     "core::slice::<impl [T]>::split_first_chunk_mut", "core::slice::<impl [T]>::split_last_chunk_mut"], fork=split_chunk_fork)
